@@ -99,7 +99,8 @@ def run(ctx):
     import gen_units
     gen_units.g_unit(ctx, "translate_grid")
     gen_units.g_unit(ctx, "translate_coreopt")
-    core_units.run(ctx, which="C08")
+    import common as _common
+    _common.guarded(ctx, "K/S-units", core_units.run, ctx, which="C08")
     ctx.assumptions.append("the quantitative bound is probabilistic (it needs the generators' distributions): proved are exit-at-first-feasible, "
                            "one evaluation per candidate, every feasible point being an immediate exit and the move_random escape of move_climb")
     ctx.monitor_rule = ("every step finishes within the watchdog and makes <= %d constraint evaluations, for all 22 optimizers, tiny and "
